@@ -36,6 +36,8 @@ def module_text(mname, defs, exports):
         forms.append(f"(define '{d} '{d}-of-{mname} \"\")")
     # an exported closure that reads both names: resolved relative to ITS module
     forms.append(f"(define 'get-{mname} (lambda () (list (eval (trap a 'na)) (eval (trap b 'nb)))) \"\")")
+    # while the module itself is current (during its own load): from-module still reaches only exported names
+    forms.append(f"(define 'self-{mname} (list (eval (trap (from-module 'a '{mname}) 'hidden)) (eval (trap (from-module 'b '{mname}) 'hidden))) \"\")")
     return " ".join(forms)
 
 def queries(mods):
@@ -44,6 +46,7 @@ def queries(mods):
         q.append(f"(eval (trap (from-module 'a '{m}) (. *trapped-signal* 'kind)))")
         q.append(f"(eval (trap (with-current-module 'b '{m}) (. *trapped-signal* 'kind)))")
         q.append(f"(eval (trap ((from-module 'get-{m} '{m})) (. *trapped-signal* 'kind)))")
+        q.append(f"(eval (trap (with-current-module 'self-{m} '{m}) (. *trapped-signal* 'kind)))")
     q.append("(eval (trap (from-module 'a 'nomod) (. *trapped-signal* 'kind)))")
     return q
 
@@ -74,16 +77,13 @@ def run(tier, seed):
         # queries from the default module, then the same bare-name queries from inside the first module
         inside = f"(load-all {lisp_string('(define (quote seen) (list (eval (trap a (quote na))) (eval (trap b (quote nb)))) (list 100))')} {lisp_string('probe')})"
         progs.append(loads + " (list " + " ".join(queries(mods)) + ")")
+    progs.append("(export '(visible)) (define 'visible 1 \"\") (define 'hidden 7 \"\") (list (eval (trap (from-module 'hidden 'default) (. *trapped-signal* 'kind))) (from-module 'visible 'default) hidden)")
     sets = [ProgramSet("configs", progs, shard_size=30, compare_polls=True)]
     run_sets(rep, sets)
     crashes_and_hangs(rep, sets)
     if not rep.violations:
         ps = sets[0]
-        # ambiguity lists are compared as sets: re-check the disagreements after sorting is not possible in-model, so
-        # only programs whose implementation answer contains no ambiguous-name are counted as disagreements
-        real = [b for b in ps.bad if "97.109.98.105.103.117.111.117.115" not in ps.answers[b]]
-        amb = [b for b in ps.bad if b not in real]
-        rep.coverage["disagreements_only_in_ambiguity_order"] = len(amb)
+        real = list(ps.bad)       # module lists in ambiguous-name are sorted on both sides (fix 083c037): every disagreement counts
         for b in sorted(real, key=lambda i: len(progs[i]))[:3]:
             rep.violation("module visibility differs from the specification on " + progs[b][:300], {"program": progs[b], "implementation": ps.answers[b][:600], "model": evalcorr.model_outcome(progs[b])[:1500]})
     rep.nontrivial = len(set(progs))
